@@ -647,6 +647,55 @@ pub fn run() {
         },
         |_, _| {},
     );
+    // long traces: the depth bound is about *which* short sequences are tried, not about how long a bus
+    // lives. 16 fixed, fully written-out sequences of 30 000 operations each (the alphabet is walked with
+    // 16 different strides), compared with REF-BUS after every operation.
+    let mut long_ops = 0u64;
+    {
+        let res = mc::par_ranges(16, 16, |rg| {
+            let mut out = vec![];
+            let mut n = 0u64;
+            for t in rg {
+                let r = mc::catch(|| {
+                    let (mut b, mut r) = base((t % 3) as u8);
+                    let stride = 2 * t + 1;
+                    let mut cnt = 0u64;
+                    let mut recent: Vec<Op> = vec![];
+                    for i in 0..30_000usize {
+                        let op = alpha[(i * stride + i / 17 + t) % alpha.len()];
+                        recent.push(op);
+                        if recent.len() > 12 {
+                            recent.remove(0);
+                        }
+                        cnt += 1;
+                        if let Some(w) = apply(&mut b, &mut r, op) {
+                            return (cnt, Some(("read".to_string(), format!("operation #{} of long trace {}: {}", i, t, w), recent)));
+                        }
+                        if let Some((k, w)) = compare(&b, &r) {
+                            return (cnt, Some((k, format!("operation #{} of long trace {} (the replay line holds the last 12 operations): {}", i, t, w), recent)));
+                        }
+                    }
+                    (cnt, None)
+                });
+                match r {
+                    Ok((c, v)) => {
+                        n += c;
+                        if let Some((k, w, ops)) = v {
+                            out.push((format!("long-trace/{}", k), ops, w));
+                        }
+                    }
+                    Err(p) => out.push((format!("panic/{}", p.file()), vec![], format!("long trace {}: panic at {}: {}", t, p.site(), p.msg))),
+                }
+            }
+            (n, out)
+        });
+        for (n, out) in res {
+            long_ops += n;
+            for (k, ops, w) in out {
+                add_bad(&mut bad, k, &ops, w);
+            }
+        }
+    }
     for (k, ops, w) in bad_nodes.into_inner().unwrap() {
         add_bad(&mut bad, k, &ops, w);
     }
@@ -671,6 +720,7 @@ pub fn run() {
     ctx.set("pair_operations", pairs);
     ctx.set("io_page_write_pairs", io_pairs);
     ctx.set("accesses_through_cpu_instructions", cpu_ops);
+    ctx.set("long_trace_operations", long_ops);
     ctx.set("distinct_outcomes", stats.states);
     ctx.sample(line(&[Op::Write(0xEF, 0xC7), Op::Write(0xF0, 0x80), Op::Read(0xEF)]));
     ctx.sample(line(&priors[2]));
